@@ -240,7 +240,7 @@ func outLast() any                               { return nil }
 //@ loop 2 invariant [C04] advanced-4: l.srcPos > old(l.srcPos)
 //@ ensures [C03 C04] never-nul: r0 != 0
 //@ ensures [C04] stop-is-error: r0 < 0 ==> r0 == -1 && len(l.errors) > old(len(l.errors))
-//@ ensures [C03] range: r0 <= 16777215
+//@ ensures [C03 C04] code-point: r0 <= 1114111
 //@ ensures [C04] errors-only-grow: len(l.errors) >= old(len(l.errors))
 //@ ensures [C04] progress: l.srcPos >= old(l.srcPos) && (r0 >= 0 ==> l.srcPos > old(l.srcPos))
 
